@@ -70,6 +70,7 @@ class TreeScenario(explore.Scenario):
         w.exported = set()
         w.again = set()      # paths whose object was replaced by another
         w.inst = {}          # path -> the instance kept by the application
+        w.broken = set()     # paths where a failing export was attempted
         w.serial = 100
         w.cw.sent()
         return w
@@ -79,11 +80,18 @@ class TreeScenario(explore.Scenario):
 
     def enabled(self, w):
         evs = []
+        if w.broken:
+            return evs
         for i, p in enumerate(UNIVERSE):
             if i not in self.params.get('paths', range(len(UNIVERSE))):
                 continue
             evs.append(('unexport', i) if p in w.exported
                        else ('export', i))
+            if p in w.exported and i in self.params.get('badexport', ()):
+                # an export at an occupied path that fails while the
+                # announcement is being built (a property of the new object
+                # cannot be read)
+                evs.append(('badexport', i))
             if p in w.exported and p not in w.again and \
                     i in self.params.get('reexport', ()):
                 # another object exported at a path that is occupied
@@ -111,7 +119,7 @@ class TreeScenario(explore.Scenario):
             w.again.discard(p)
         return p
 
-    def advance(self, w, ev):
+    def _advance(self, w, ev):
         # the queries are part of the history too (an implementation may
         # cache what it answered): issue them, do not judge them again
         self._do(w, ev)
@@ -135,8 +143,59 @@ class TreeScenario(explore.Scenario):
                 if m['fields'].get('reply_serial') == w.serial]
         return mine, [m for m in msgs if m not in mine]
 
+    def _bad_export(self, w, ev):
+        """no export or unexport call so far implies that the path went
+        away: whatever object answers there now, the path is still exported
+        and still listed by its parent"""
+        p = UNIVERSE[ev[1]]
+        o = w.T(p)
+        o.Count = 'not-a-number'          # declared 'u'
+        try:
+            w.cw.conn.exportObject(o)
+            raised = False
+        except Exception:
+            raised = True
+        w.broken.add(p)
+        w.cw.sent()
+        viol = []
+        mine, extra = self._call(w, p, 'org.ex.T', 'Ping')
+        if len(mine) != 1 or mine[0]['type'] != 2:
+            viol.append(('%s/failed-export/call' % PROP,
+                         'exported %r; an export of another object at the '
+                         'occupied %s %s; afterwards Ping on %s is answered '
+                         '%r' % (sorted(w.exported), p, 'raised' if raised
+                                 else 'returned', p, [_b(m) for m in mine])))
+        parent = p.rsplit('/', 1)[0] or '/'
+        if parent != p:
+            mine, extra = self._call(
+                w, parent, 'org.freedesktop.DBus.Introspectable',
+                'Introspect')
+            kids = []
+            if len(mine) == 1 and mine[0]['type'] == 2:
+                xml = mine[0]['body'][0]
+                kids = [n.get('name') for n in ET.fromstring(
+                    xml[xml.index('<node'):]).findall('node')]
+            if p.rsplit('/', 1)[1] not in kids:
+                viol.append(('%s/failed-export/parent' % PROP,
+                             'after a failed export at the occupied %s its '
+                             'parent lists the children %r' % (p, kids)))
+        return viol
+
+    def advance(self, w, ev):
+        if ev[0] == 'badexport':
+            self._bad_export(w, ev)
+            return
+        self._advance(w, ev)
+
     def apply(self, w, ev):
         viol = []
+        if ev[0] == 'badexport':
+            try:
+                return self._bad_export(w, ev)
+            except Exception as e:
+                return [('%s/failed-export/raises-%s'
+                         % (PROP, type(e).__name__),
+                         'querying after a failed export raised %r' % (e,))]
         try:
             p = self._do(w, ev)
         except Exception as e:
@@ -278,7 +337,7 @@ class TreeScenario(explore.Scenario):
     def canon(self, w):
         if self.params.get('dedup', True):
             return (tuple(sorted(w.exported)), tuple(sorted(w.again)),
-                    tuple(sorted(w.inst)))
+                    tuple(sorted(w.inst)), tuple(sorted(w.broken)))
         return None
 
     def nontrivial(self, hist):
@@ -324,6 +383,10 @@ def run(ctx):
                      'paths': (1, 2, 3, 4) if ctx.quick else (0, 1, 2, 3, 4, 6)},
                     max_depth=30,
                     label='the same instances exported again after unexport')
+    explore.explore(ctx, TreeScenario,
+                    {'dedup': True, 'paths': (1, 2, 3, 4),
+                     'badexport': (1, 2, 4)}, max_depth=30,
+                    label='an export at an occupied path that fails')
     explore.explore(ctx, TreeScenario,
                     {'dedup': False, 'reexport': tuple(range(7))},
                     max_depth=3 if ctx.quick else 5,
